@@ -329,18 +329,31 @@ theorem sshpopOp_ok (cfg : Config) (p : Prov) (c : Cr) (now : Int) (op : Op) (t 
     obtain ⟨a, b, c', d, e⟩ := sshpopTok_ok _ _ _ _ _ _ _ _ hty h0
     exact ⟨pc, a, b, c', d, .inl ⟨rfl, e rfl, h1⟩⟩
 
+theorem nebulaTok_ok (cfg : Config) (p : Prov) (c : Cr) (now : Int) (op : Op) (t : Tok) (u : Unit)
+    (h : nebulaTok cfg p c now op t = .ok u) :
+    c.chain = true ∧ c.sig = true ∧ claimsAudSub cfg p now op t = .ok u := by
+  unfold nebulaTok at h
+  split at h
+  · simp at h
+  · unfold nebulaChk at h
+    simp only [bind_ok, need_ok] at h
+    obtain ⟨_, h0, _, h1, h2⟩ := h
+    exact ⟨h0, h1, h2⟩
+
 theorem nebulaOp_ok (cfg : Config) (p : Prov) (c : Cr) (now : Int) (op : Op) (t : Tok) (u : Unit)
     (hty : p.ty = .nebula) (h : nebulaOp cfg p c now op t = .ok u) :
     c.chain = true ∧ c.sig = true ∧ ClaimsOk cfg p now op t ∧
       (op = .sign ∨ op = .revoke ∨ ((op = .sshSign ∨ op = .sshRevoke) ∧ p.sshEnabled = true)) := by
   have hn : p.expIssuer = p.name := by simp [Prov.expIssuer, hty]
-  cases op <;> simp only [nebulaOp, nebulaTok, bind_ok, need_ok] at h
-  · obtain ⟨_, h0, _, h1, h2⟩ := h; exact ⟨h0, h1, claims_of _ _ _ _ _ _ hn h2, by simp⟩
-  · obtain ⟨_, hs, _, h0, _, h1, h2⟩ := h; exact ⟨h0, h1, claims_of _ _ _ _ _ _ hn h2, by simp [hs]⟩
+  cases op <;> simp only [nebulaOp, bind_ok, need_ok] at h
+  · obtain ⟨h0, h1, h2⟩ := nebulaTok_ok _ _ _ _ _ _ _ h; exact ⟨h0, h1, claims_of _ _ _ _ _ _ hn h2, by simp⟩
+  · obtain ⟨_, hs, _, h', _⟩ := h
+    obtain ⟨h0, h1, h2⟩ := nebulaTok_ok _ _ _ _ _ _ _ h'; exact ⟨h0, h1, claims_of _ _ _ _ _ _ hn h2, by simp [hs]⟩
   · exact absurd h (baseReject_ne _)
   · exact absurd h (baseReject_ne _)
-  · obtain ⟨_, h0, _, h1, h2⟩ := h; exact ⟨h0, h1, claims_of _ _ _ _ _ _ hn h2, by simp⟩
-  · obtain ⟨_, hs, _, h0, _, h1, h2⟩ := h; exact ⟨h0, h1, claims_of _ _ _ _ _ _ hn h2, by simp [hs]⟩
+  · obtain ⟨h0, h1, h2⟩ := nebulaTok_ok _ _ _ _ _ _ _ h; exact ⟨h0, h1, claims_of _ _ _ _ _ _ hn h2, by simp⟩
+  · obtain ⟨_, hs, h'⟩ := h
+    obtain ⟨h0, h1, h2⟩ := nebulaTok_ok _ _ _ _ _ _ _ h'; exact ⟨h0, h1, claims_of _ _ _ _ _ _ hn h2, by simp [hs]⟩
 
 theorem oidcTok_ok (p : Prov) (c : Cr) (now : Int) (t : Tok) (u : Unit) (h : oidcTok p c now t = .ok u) :
     c.sig = true ∧ (p.oidcIssuer = [] ∨ t.iss = p.oidcIssuer) ∧ Window now t ∧
@@ -547,8 +560,8 @@ def exCfg : Config := ⟨[exHost], [exJwk, exOidc, exAcme], true, false, 1000⟩
 def exTok : Tok :=
   { parsed := true, kid := s "k1", iss := s "jwk", sub := s "host", aud := [⟨s "https://ca/1.0/sign", s "https://ca/1.0/sign"⟩],
     exp := some 2300, nbf := some 1999, iat := some 2000, azp := [], tid := [], email := [], lbtOk := true,
-    fragment := [], fragEsc := [], hasSSH := false, sshTypeOk := true, pop := none,
-    cr := [⟨true, false, false, false, false, false, false⟩, Cr.none, Cr.none] }
+    fragment := [], fragEsc := [], hasSSH := false, sshTypeOk := true, nebSshOk := true, pop := none,
+    cr := [⟨true, false, false, false, false, false, false, false⟩, Cr.none, Cr.none] }
 
 /-- a valid JWK sign token is accepted (the hypotheses of `authorize_sound` are satisfiable) -/
 example : authorize exCfg (2000 * ns) .sign exTok = .ok 0 := by decide
@@ -562,7 +575,7 @@ example : authorize exCfg (2000 * ns) .revoke exTok = .reject .audience := by de
 def forgedTok : Tok :=
   { parsed := true, kid := [], iss := [], sub := [], aud := [⟨s "https://ca/1.0/sign#acme/acme", s "https://ca/1.0/sign#acme/acme"⟩],
     exp := none, nbf := none, iat := none, azp := [], tid := [], email := [], lbtOk := true,
-    fragment := s "acme/acme", fragEsc := s "acme/acme", hasSSH := false, sshTypeOk := true, pop := none,
+    fragment := s "acme/acme", fragEsc := s "acme/acme", hasSSH := false, sshTypeOk := true, nebSshOk := true, pop := none,
     cr := [Cr.none, Cr.none, Cr.none] }
 
 /-- **Refutation (defect, CVE-2025-44005 class).** "Accepted ⇒ the token verifies under the key
@@ -610,8 +623,8 @@ theorem authorize_genuine_partial (cfg : Config) (now : Int) (op : Op) (t : Tok)
 def oidcTokNoSub : Tok :=
   { parsed := true, kid := s "idp-key", iss := s "https://idp", sub := [], aud := [⟨s "client", s "client"⟩],
     exp := some 2300, nbf := none, iat := some 2000, azp := [], tid := [], email := [], lbtOk := true,
-    fragment := [], fragEsc := [], hasSSH := false, sshTypeOk := true, pop := none,
-    cr := [Cr.none, ⟨true, false, false, false, true, true, true⟩, Cr.none] }
+    fragment := [], fragEsc := [], hasSSH := false, sshTypeOk := true, nebSshOk := true, pop := none,
+    cr := [Cr.none, ⟨true, false, false, false, true, true, true, false⟩, Cr.none] }
 
 /-- **Refutation.** "Accepted ⇒ non-empty subject" is false for the code as it stands: an OIDC token
     that verifies, with no `sub`, is authorized for X.509 sign. -/
@@ -847,13 +860,13 @@ theorem mutation_other_audience (cfg : Config) (now : Int) (op : Op) (t : Tok)
       rw [hm] at this; cases this
     · simp at hu
     · simp at hu
-    · cases op <;> simp only [nebulaOp, nebulaTok, bind_ok, need_ok] at h5
-      · obtain ⟨_, _, _, _, h⟩ := h5; exact key _ h
-      · obtain ⟨_, _, _, _, _, _, h⟩ := h5; exact key _ h
+    · cases op <;> simp only [nebulaOp, bind_ok, need_ok] at h5
+      · exact key _ (nebulaTok_ok _ _ _ _ _ _ _ h5).2.2
+      · obtain ⟨_, _, _, h, _⟩ := h5; exact key _ (nebulaTok_ok _ _ _ _ _ _ _ h).2.2
       · exact baseReject_ne _ h5
       · exact baseReject_ne _ h5
-      · obtain ⟨_, _, _, _, h⟩ := h5; exact key _ h
-      · obtain ⟨_, _, _, _, _, _, h⟩ := h5; exact key _ h
+      · exact key _ (nebulaTok_ok _ _ _ _ _ _ _ h5).2.2
+      · obtain ⟨_, _, h⟩ := h5; exact key _ (nebulaTok_ok _ _ _ _ _ _ _ h).2.2
     · simp at hu
     · simp at hu
 
